@@ -134,7 +134,11 @@ def gen_dst(rng, src, opts):
         k = rng.below(4)
         if k == 0:
             dst[rel] = D(); dst[rel + "/inner"] = F(b"inner"); dst[rel + "/in2"] = D(); dst[rel + "/in2/leaf"] = F(b"leaf")
-        elif k == 1 and opts.get("symlinks"): dst[rel] = L("nowhere")
+        elif k == 1 and opts.get("symlinks"):
+            # a stale link: dangling, or pointing at a DIRECTORY outside both roots / at the source root / inside the source
+            # (seeded change C02b: a delete that walks into what the link points to)
+            sdirs = [r for r, n in src.items() if n["k"] == "d"]
+            dst[rel] = L(rng.pick(["nowhere", "@OUT@", "@SRC@"] + (["@SRC@/" + rng.pick(sdirs)] if sdirs else [])))
         else: dst[rel] = F(rng.bytes(rng.range(0, 50)))
     return dst
 
@@ -806,3 +810,86 @@ def run_single_file(tier="quick", seed=1, work=None, replay=None, **kw):
 def mutate_same(data):
     if not data: return b""
     d = bytearray(data); d[0] ^= 0xFF; return bytes(d)
+
+# ------------------------------------------------------------------ C08: bidirectional dry run (seeded change C08b)
+def _bisync_edit(rng, root, other, clock):
+    """one edit on one side of a bisync pair (regular files only)"""
+    files = sorted(os.path.relpath(os.path.join(dp, n), root) for dp, _, fn in os.walk(root) for n in fn)
+    k = rng.below(6); t = (BASE_T + 20000 + clock) * 10**9
+    if k == 0 or not files:
+        rel = rng.pick(["n%d" % clock, "sub/n%d" % clock]); p = os.path.join(root, rel); os.makedirs(os.path.dirname(p), exist_ok=True)
+        open(p, "wb").write(rng.bytes(rng.range(0, 300))); os.utime(p, ns=(t, t)); return "create:" + rel
+    rel = rng.pick(files); p = os.path.join(root, rel)
+    if k == 1: os.unlink(p); return "delete:" + rel
+    d = bytearray(open(p, "rb").read() or b"x")
+    if k == 2: d[0] ^= 0xFF; open(p, "wb").write(bytes(d)); os.utime(p, ns=(t, t)); return "edit-same-size:" + rel
+    if k == 3: open(p, "ab").write(b"+more"); os.utime(p, ns=(t, t)); return "edit-grow:" + rel
+    if k == 4: os.utime(p, ns=(t, t)); return "touch:" + rel
+    q = os.path.join(other, rel)          # the same path changed on the other side too (a conflict)
+    os.makedirs(os.path.dirname(q), exist_ok=True); open(q, "wb").write(rng.bytes(rng.range(1, 200))); os.utime(q, ns=(t + 10**9, t + 10**9))
+    open(p, "wb").write(rng.bytes(rng.range(1, 200))); os.utime(p, ns=(t, t)); return "edit-both:" + rel
+
+def run_bisync_dry(tier="quick", seed=1, work=None, replay=None, **kw):
+    """C08 for --bidirectional: after a history of real bisyncs and edits, `sy A B -b --dry-run <flags>` changes neither root nor
+    the state database, and the counts it reports are those of the same command without --dry-run run right afterwards."""
+    rep = Report(rule="bisync dry/real twins: two roots with generated regular files, 0-2 real `sy -b` runs interleaved with one-sided / two-sided edits "
+                      "(create, delete, same-size edit, grow, touch, edit on both sides), then `-b --dry-run F` followed by `-b F` in the same world, "
+                      "F among --conflict-resolve S, --max-delete N, --clear-bisync-state; non-trivial = at least one edit after the last real run")
+    rng = Rng(seed * 1_000_033 + 808)
+    n = 16 if tier == "quick" else 200
+    contents = Contents()
+    os.makedirs(work, exist_ok=True)
+    for ci in range(n):
+        case = os.path.join(work, f"bd{ci}"); A, B = os.path.join(case, "A"), os.path.join(case, "B")
+        os.makedirs(A); os.makedirs(B)
+        for rel in rng_sample(rng, ["a", "b.txt", "sub/c", "sub/d.bin", "e f", "ü"], rng.range(1, 5)):
+            data = rng.bytes(rng.range(0, 400)); t = (BASE_T + 100 + rng.below(1000)) * 10**9
+            for root in ((A, B) if rng.chance(2, 3) else (rng.pick([A, B]),)):
+                p = os.path.join(root, rel); os.makedirs(os.path.dirname(p), exist_ok=True); open(p, "wb").write(data); os.utime(p, ns=(t, t))
+        hist = []; clock = 0
+        for r in range(rng.range(0, 2)):
+            rc, _, _ = run_sy([A, B, "-b", "--json"], case); hist.append(f"sync(rc={rc})")
+            for _ in range(rng.range(0, 2)):
+                clock += 5; side = rng.pick([(A, B), (B, A)]); hist.append(("A:" if side[0] == A else "B:") + _bisync_edit(rng, side[0], side[1], clock))
+        last_edits = 0
+        for _ in range(rng.range(0, 3)):
+            clock += 5; side = rng.pick([(A, B), (B, A)]); hist.append(("A:" if side[0] == A else "B:") + _bisync_edit(rng, side[0], side[1], clock)); last_edits += 1
+        flags = []
+        if rng.chance(1, 2): flags += ["--conflict-resolve", rng.pick(["newer", "larger", "smaller", "source", "dest", "rename"])]
+        if rng.chance(1, 3): flags += ["--max-delete", str(rng.pick([0, 10, 50, 100]))]
+        if rng.chance(1, 2): flags += ["--clear-bisync-state"]
+        for f in flags:
+            if f.startswith("--"): rep.tag("bisync-dry.flag." + f)
+        pre = (tree_fingerprint(snapshot(A, contents)), tree_fingerprint(snapshot(B, contents)), home_listing(case))
+        rcd, outd, errd = run_sy([A, B, "-b", "--dry-run", "--json"] + flags, case)
+        post = (tree_fingerprint(snapshot(A, contents)), tree_fingerprint(snapshot(B, contents)), home_listing(case))
+        desc = {"case": ci, "seed": seed, "history": hist, "flags": flags, "exit_dry": rcd}
+        if pre[0] != post[0] or pre[1] != post[1]:
+            rep.oracle_fail("C08/dry-run-changed-a-root", "a bidirectional dry run changed one of the roots", desc)
+        if pre[2] != post[2]:
+            ch = sorted(k for k in set(pre[2]) | set(post[2]) if pre[2].get(k) != post[2].get(k))
+            rep.oracle_fail("C08/dry-run-touched-state", f"a bidirectional dry run created, changed or removed state files: {ch[:4]}", desc)
+        rcr, outr, errr = run_sy([A, B, "-b", "--json"] + flags, case)
+        desc["exit_real"] = rcr
+        def summ(out):
+            ev, bad = parse_json_lines(out)
+            s = [e for e in ev if e.get("type") == "summary"]
+            return ({k: s[-1].get(k) for k in ("files_created", "files_updated", "files_deleted", "bytes_transferred")} if s else None,
+                    len([e for e in ev if e.get("type") == "error"]))
+        (sd, ed), (sr, er) = summ(outd), summ(outr)
+        rep.tag("bisync-dry.twin"); rep.tag("bisync-dry.exit.%s/%s" % (rcd, rcr))
+        rep.case((tuple(flags), json.dumps(hist)), last_edits > 0)
+        if er == 0 and rcr == 0:
+            if rcd != 0: rep.oracle_fail("C08/dry-run-exit-differs", f"the dry run exits {rcd}, the real run exits 0", desc)
+            elif sd != sr: rep.oracle_fail("C08/dry-run-plan-differs", f"bidirectional dry run reports {sd}, the same command without --dry-run performs {sr}", desc)
+        elif (rcd == 0) != (rcr == 0) and er == 0:
+            rep.oracle_fail("C08/dry-run-exit-differs", f"the dry run exits {rcd}, the real run exits {rcr} without per-file errors", desc)
+        rep.sample({"flags": flags, "history": hist, "dry": sd, "real": sr})
+        shutil.rmtree(case, ignore_errors=True)
+    return rep.to_dict()
+
+def rng_sample(rng, xs, k):
+    xs = list(xs); out = []
+    for _ in range(min(k, len(xs))):
+        out.append(xs.pop(rng.below(len(xs))))
+    return out
